@@ -159,7 +159,7 @@ tlc.cleanup(g)
 rnd = random.Random(c.seed)
 sampled = False
 if c.quick:
-    budget = 360
+    budget = 240
     cover.sort(key=lambda b: (-score(b), json.dumps([s['last'] for s in b[1:]], sort_keys=True)))
     ntop = min(len([b for b in cover if score(b) >= 4]), budget // 2)
     top, rest = cover[:ntop], cover[ntop:]
@@ -173,14 +173,14 @@ c.log('graph: %d states, %d edges -> %d behaviours (uncovered edges %d); replayi
 # deep random behaviours: 3 traces, 2 concurrent merges, every merge kind, 4 time stamps
 sc = dict(traces=('a', 'b', 'c'), parts=5, batch=2, times=(1, 2, 3, 4), merges=('m1', 'm2'), kinds=('hot', 'finalize', 'mem'), frontiers=(1, 3),
           inv=False, view=False)
-s = tlc.run('TraceSampling.tla', 's.cfg', tag='c13s', files={'s.cfg': cfg(**sc)}, simulate={'num': 120 if c.quick else 1500}, depth=22, seed=c.seed, timeout=1200)
+s = tlc.run('TraceSampling.tla', 's.cfg', tag='c13s', files={'s.cfg': cfg(**sc)}, simulate={'num': 80 if c.quick else 1500}, depth=22, seed=c.seed, timeout=1200)
 sb = tlc.sim_behaviours(s)
 tlc.cleanup(s)
 if not sb:
     c.inconclusive('no simulated behaviours: %s' % (s.error or s.output[-500:]))
 # no sampler registered / native pipeline off: merges must be lossless
 nc = dict(nos, traces=('a', 'b', 'c'), parts=4, inv=False, view=False)
-s0 = tlc.run('TraceSampling.tla', 's0.cfg', tag='c13s0', files={'s0.cfg': cfg(**nc)}, simulate={'num': 40 if c.quick else 400}, depth=16, seed=c.seed, timeout=900)
+s0 = tlc.run('TraceSampling.tla', 's0.cfg', tag='c13s0', files={'s0.cfg': cfg(**nc)}, simulate={'num': 30 if c.quick else 400}, depth=16, seed=c.seed, timeout=900)
 sb0 = tlc.sim_behaviours(s0)
 tlc.cleanup(s0)
 
@@ -220,24 +220,27 @@ if not selftest:
     c.inconclusive('binding self-test failed: %d of %d corrupted replays were rejected' % (len({v['behaviour'] for v in st['violations']}), len(probe)))
 
 # ---- 4. S15 probe (not part of the verdict): histories that break the documented gap assumption ----------------
-s15 = dict(note='RespectGap=FALSE, guard rule as coded (time window)')
-pc = dict(traces=('a', 'b'), parts=3, batch=1, times=(2, 4) if c.quick else (1, 2, 3, 4), gap=False, coded=True, kinds=('hot',), frontiers=(3,),
-          decisions=('Keep', 'Drop'), timeouts=(False,))
-p = tlc.run('TraceSampling.tla', 'p.cfg', tag='c13p', files={'p.cfg': cfg(**pc)}, timeout=1200, workers=W)
-s15['tlc_violated'] = p.violated
-wit = counterexample(p.output) if p.violated else []
-if p.violated and len(wit) > 1:
-    pr = replay([wit], 's15', procs=1)
-    sigs = sorted({v['signature'] for v in pr['violations']})
-    s15.update(witness=[x['last'] for x in wit[1:]], real_code_signatures=sigs, inconclusive=pr['inconclusive'][:2],
-               detail=[v['detail'] for v in pr['violations']][:1])
-    if 'partial-trace-after-merge' in sigs:
-        print('NOTE property=C13 S15-candidate (not part of the verdict): with fragments of one trace farther apart than merge_grace the '
-              'real merge drops part of a trace: %s' % s15['detail'][0][:400], flush=True)
+s15 = dict(note='RespectGap=FALSE, guard rule as coded (time window); not part of the verdict')
+probes = [('across-segments', (2, 4))] if c.quick else [('across-segments', (2, 4)), ('within-segment', (1, 2, 3))]
+for pname, ptimes in probes:
+    pc = dict(traces=('a', 'b'), parts=3, batch=1, times=ptimes, gap=False, coded=True, kinds=('hot',), frontiers=(3,),
+              decisions=('Keep', 'Drop'), timeouts=(False,))
+    p = tlc.run('TraceSampling.tla', 'p.cfg', tag='c13p', files={'p.cfg': cfg(**pc)}, timeout=1200, workers=W)
+    one = dict(tlc_violated=p.violated)
+    s15[pname] = one
+    wit = counterexample(p.output) if p.violated else []
+    if p.violated and len(wit) > 1:
+        pr = replay([wit], 's15', procs=1)
+        sigs = sorted({v['signature'] for v in pr['violations']})
+        one.update(witness=[x['last'] for x in wit[1:]], real_code_signatures=sigs, inconclusive=pr['inconclusive'][:2],
+                   detail=[v['detail'] for v in pr['violations']][:1])
+        if 'partial-trace-after-merge' in sigs:
+            print('NOTE property=C13 S15-candidate (%s; not part of the verdict): with fragments of one trace farther apart than merge_grace '
+                  'the real merge drops part of a trace: %s' % (pname, one['detail'][0][:300]), flush=True)
+        else:
+            c.log('S15 probe %s: the TLC witness did not reproduce a partial drop on the real code: %s' % (pname, sigs))
     else:
-        c.log('S15 probe: TLC witness did not reproduce a partial drop on the real code: %s' % sigs)
-else:
-    c.log('S15 probe: TLC found no violation without the gap assumption (violated=%s error=%s)' % (p.violated, p.error))
+        c.log('S15 probe %s: TLC found no violation without the gap assumption (violated=%s error=%s)' % (pname, p.violated, p.error))
 
 nontriv = core.nontrivial_count(allb, lambda b: score(b) >= 2)
 samples = []
